@@ -4,6 +4,7 @@ import (
 	"bytes"
 	"errors"
 	"fmt"
+	"io"
 	"strings"
 
 	"github.com/hattya/go.sh/ast"
@@ -207,6 +208,20 @@ func (w *failingWriter) Write(p []byte) (int, error) {
 	return acc, w.err
 }
 
+// c18Abuse prints malformed trees (a Cmd without expression nested in groups, a
+// word with a nil part) and swallows the panics, the way a defensive caller would.
+func c18Abuse(cfg *printer.Config) {
+	bad := &ast.Cmd{}
+	inner := &ast.Cmd{Expr: &ast.Group{Lbrace: ast.NewPos(1, 1), List: []ast.Command{&ast.Cmd{Expr: &ast.SimpleCmd{Args: []ast.Word{{&ast.Lit{ValuePos: ast.NewPos(2, 2), Value: "a"}}}}}, bad}, Rbrace: ast.NewPos(4, 1)}}
+	outer := &ast.Cmd{Expr: &ast.Group{Lbrace: ast.NewPos(1, 1), List: []ast.Command{inner}, Rbrace: ast.NewPos(5, 1)}}
+	for _, n := range []ast.Node{outer, ast.Word{nil}, &ast.Cmd{Expr: &ast.Subshell{Lparen: ast.NewPos(1, 1), List: []ast.Command{bad}, Rparen: ast.NewPos(3, 1)}}} {
+		func() {
+			defer func() { _ = recover() }()
+			_ = cfg.Fprint(io.Discard, n)
+		}()
+	}
+}
+
 func c18Exec(c *core.Ctx, cs prCase) {
 	src := prSource(cs)
 	cmds, _, err := parseAll("c18", src)
@@ -227,6 +242,13 @@ func c18Exec(c *core.Ctx, cs prCase) {
 		if skel.Dump(cmds) != before {
 			c.Violation("tree-modified", key, "the tree is unchanged after Fprint", "changed", firstDiff(before, skel.Dump(cmds)))
 			return
+		}
+		if ci%16 == int(c.Index())%16 {
+			// hostile interlude: a caller that recovered from Fprint panicking on a
+			// hand-built malformed tree (outside the contract) must not influence the
+			// next, well-formed call: no state survives between calls
+			c18Abuse(&cfg)
+			c.Count("abusive-interludes", 1)
 		}
 		t1b, _ := printAll(&cfg, cmds)
 		if t1b != t1 {
